@@ -53,6 +53,7 @@ fn base(rng: &mut Rng, b: u64) -> ConnScenario {
         client,
         wplan: vec![],
         cap_ns: secs(120),
+        prelude: vec![],
     }
 }
 
@@ -120,6 +121,11 @@ fn generate(rng: &mut Rng, index: u64) -> ConnScenario {
     for fi in 0..frames.len() {
         menu.push((fi, 7, 0)); // the client resets the connection right after this frame
     }
+    if let Some(fi) = frames.iter().position(|f| f.kind == "Extra") {
+        for k in 0..12 {
+            menu.push((fi, 11, k)); // a legal frame (plugin message) whose length is at / just below the configured maximum
+        }
+    }
     for k in 0..6 {
         menu.push((0, 10, k)); // a long run of valid ignorable frames in one burst while the server waits for Client Information
     }
@@ -173,6 +179,20 @@ fn generate(rng: &mut Rng, index: u64) -> ConnScenario {
             let total = max as usize + [1usize, 2, 40][par as usize % 3];
             sc.client.mutations.push(Mutation { frame: fi, op: MutOp::PadTo { total } });
         }
+        11 => {
+            let total = (max as usize).saturating_sub([0usize, 1, 2, 3][par as usize % 4]).max(40);
+            sc.client.mutations.push(Mutation { frame: fi, op: MutOp::PadTo { total } });
+            match par / 4 {
+                0 => {}
+                1 => {
+                    // in pieces
+                    for _ in 0..rng.range(1, 5) {
+                        sc.client.cuts.push(Cut { at: f.start + rng.below(total as u64), gate: if rng.chance(1, 2) { Gate::Now } else { Gate::Delay { ns: ms(1) } }, spurious: rng.below(2) as u8 });
+                    }
+                }
+                _ => sc.client.close_after = Some((fi + 1, false)),
+            }
+        }
         10 => {
             let (count, size) = [(200u32, 50u32), (600, 300), (1500, 700), (3000, 90), (400, 2000), (2500, 401)][par as usize % 6];
             sc.cfg.max_frame = None;
@@ -211,7 +231,7 @@ fn generate(rng: &mut Rng, index: u64) -> ConnScenario {
         }
     }
     // random segmentation on top (never inside the frame whose prefix delivery is being timed)
-    if class != 0 && class != 9 && class != 10 && rng.chance(1, 3) {
+    if class != 0 && class != 9 && class != 10 && class != 11 && rng.chance(1, 3) {
         for _ in 0..rng.range(1, 4) {
             let g = rng.pick(&frames).clone();
             sc.client.cuts.push(Cut { at: rng.range(g.start, g.end - 1), gate: if rng.chance(1, 2) { Gate::Now } else { Gate::Delay { ns: ms(1) } }, spurious: rng.below(3) as u8 });
@@ -290,6 +310,14 @@ pub fn check(sc: &ConnScenario, out: &ConnOutcome, rep: &mut RunReport) {
                 }
                 if out.result == "Ok" {
                     rep.violate("malformed_input_is_an_error", format!("frame of {total} bytes (max {max}) but listen() returned Ok"));
+                }
+            }
+            MutOp::PadTo { total } if *total <= max && *total >= 40 && f.kind == "Extra" => {
+                // a legal frame at the size limit is consumed like any other (only for the scenario as generated:
+                // ignorable configuration-phase extras sent after Login Acknowledged by a client that goes on)
+                let as_generated = sc.client.send_info && sc.client.mute_after.is_none() && sc.client.extras.iter().all(|x| x.after_ack && matches!(x.id, 0x02 | 0x06));
+                if as_generated && sc.client.mutations.len() == 1 && sc.client.close_after.is_none() && sc.wplan.is_empty() && matches!(sc.client.enc, EncVariant::Honest) && !matches!(out.result.as_str(), "Ok" | "NoTargetFound") {
+                    rep.violate("legal_frame_at_the_size_limit_is_consumed", format!("an ignorable frame of {total} bytes (max {max}) ended the connection with {} {}", out.result, out.result_text));
                 }
             }
             MutOp::Truncate { keep } if (*keep as u64) < f.end - f.start + 0 && sc.client.close_after.is_some() => {
